@@ -299,14 +299,14 @@ def gen_op(r, depth):
         return {"k": k}
     g = Gen(r, allow_vars=False)
     if k == "AliasDecl":
-        return {"k": k, "name": r.choice(["A", "ünï", ""]), "b": r.choice("CA")}
+        return {"k": k, "name": r.choice(["A", "ünï", "", " a\n"]), "b": r.choice("CA")}
     if k == "AliasDefn":
-        return {"k": k, "name": r.choice(["A", "ünï", ""]), "ty": g.ty(depth)}
+        return {"k": k, "name": r.choice(["A", "ünï", "", " a\n"]), "ty": g.ty(depth)}
     c = c06.gen_case(r, depth, kind=k)
     if k in ("DFG", "TailLoop", "DataflowBlock"):
         c["delta"] = r.sample(REQS, r.choice([0, 1, 2, 3]))
     if k == "Custom":
-        c["desc"] = r.choice(["", "a description", "ünï ✓"])
+        c["desc"] = r.choice(["", "a description", "ünï ✓", "ends with a newline\n", "  indented"])
         c["ext"] = r.choice(["some.ext", "", "verif.test"])
     if k == "ExtOp":
         c["desc"] = r.choice(["", "def description"])
